@@ -366,6 +366,61 @@ func runT(s *tscenario, k int) (impl string, trace string, frameLen int) {
 	return fmt.Sprintf("%s %s %s %s", first, next, conn, data), eventsString(evs), env.b.FrameLenNth(s.key, s.nth)
 }
 
+// multiPart: one Client.ListOffsets call that the Transport splits into three sub-requests (first offset, last offset
+// and a timestamp lookup of the same partition); the response to ONE of them (the nth to arrive) is cut at byte k, the
+// others are delivered.  Every requested value must either be the true one or come with an error — never a
+// placeholder presented as a result.
+//
+//	lo <cut timestamp|none> <true first> <true last> <frame len> <k>\t<call> <first> <last> <error code>
+func multiPart(out *bufio.Writer, r *rand.Rand, thorough bool) (n int) {
+	bad := 0
+	for nth := 1; nth <= 3 && bad < 5; nth++ {
+		flen := 41
+		for _, k := range cuts(r, flen, thorough, 4) {
+			env := newEnv()
+			if k < flen {
+				env.b.Cut(2, nth, k)
+			}
+			var impl string
+			res := guard(5*time.Second, func() error {
+				ctx, cancel := ctx3()
+				defer cancel()
+				resp, err := env.cl.ListOffsets(ctx, &kafka.ListOffsetsRequest{Topics: map[string][]kafka.OffsetRequest{
+					ttopic: {kafka.FirstOffsetOf(0), kafka.LastOffsetOf(0), kafka.TimeOffsetOf(0, time.Unix(1, 234000000))}}})
+				if err != nil {
+					impl = "err - - -"
+					return nil
+				}
+				impl = "ok - - missing"
+				for _, p := range resp.Topics[ttopic] {
+					code := "0"
+					if p.Error != nil {
+						code = "other"
+						var ke kafka.Error
+						if errors.As(p.Error, &ke) {
+							code = fmt.Sprint(int(ke))
+						}
+					}
+					impl = fmt.Sprintf("ok %d %d %s", p.FirstOffset, p.LastOffset, code)
+				}
+				return nil
+			})
+			if res == "hang" {
+				impl = "hang - - -"
+				bad++
+			}
+			cutTs := "none"
+			if ts := env.b.CutTimestamp(); ts != 0 {
+				cutTs = fmt.Sprint(ts)
+			}
+			go env.tr.CloseIdleConnections()
+			fmt.Fprintf(out, "lo %s 0 %d %d %d\t%s\n", cutTs, len(env.b.Log()), flen, k, impl)
+			n++
+		}
+	}
+	return
+}
+
 func transportPath(out *bufio.Writer, r *rand.Rand, thorough bool) (n int, slowest time.Duration) {
 	bad := 0
 	for _, s := range tscenarios() {
